@@ -43,7 +43,7 @@ Print Assumptions array_iteration.
 Theorem list_iteration : forall f xs, iterates f (IList xs) xs /\ lg (IList xs) xs.
 Proof. exact IterProofs.list_summary. Qed.
 Print Assumptions list_iteration.
-(* Tree: iter_init/next/last/prev follow child and parent links (Tree_Iter_*); over EVERY binary tree shape
+(* Tree: iter_init/next/last/prev follow child and parent links as Tree_Iter_Init, Next, Last, Prev do; over EVERY binary tree shape
    (so whatever the red-black balancing of C03 does) the walk visits the nodes in in-order sequence,
    backward = reverse, len = number of nodes.  (Keyed get: not positional.) *)
 Theorem tree_iteration : forall f T,
